@@ -230,6 +230,139 @@ func swSync(remove bool, states am.S, later bool, want bool) (int, string) {
 	return ok()
 }
 
+// swApi is a plain *am.Machine behind the am.Api interface; the hooks only
+// make goroutine interleavings deterministic: afterEvAdd runs between the
+// helper's EvAdd and its WhenQueue, registered is closed once the helper's
+// WhenQueue waiter is in place.
+type swApi struct {
+	*am.Machine
+	afterEvAdd func()
+	registered chan struct{}
+}
+
+func (a *swApi) EvAdd(e *am.Event, states am.S, args am.A) am.Result {
+	res := a.Machine.EvAdd(e, states, args)
+	if a.afterEvAdd != nil {
+		a.afterEvAdd()
+	}
+	return res
+}
+
+func (a *swApi) WhenQueue(tick am.Result) <-chan struct{} {
+	ch := a.Machine.WhenQueue(tick)
+	close(a.registered)
+	return ch
+}
+
+// swBehindFuture: a WhenQueue waiter for a far-future tick is registered
+// first, the queue is parked in RunState, then Add1Sync / Remove1Sync is
+// issued (queued) and the queue released. The helper has to return true
+// within a second, according to what its own mutation did.
+func swBehindFuture(remove bool) (int, string) {
+	m, _, release := swBlocked()
+	if remove {
+		m.Add1("A", nil) // queued before the removal
+	}
+	_ = m.WhenQueue(am.Result(m.QueueTick() + 1000))
+	api := &swApi{Machine: m, registered: make(chan struct{})}
+	ctx, cancel := context.WithTimeout(context.Background(), 1500*time.Millisecond)
+	defer cancel()
+	got := make(chan bool, 1)
+	go func() {
+		if remove {
+			got <- amhelp.Remove1Sync(ctx, api, "A")
+		} else {
+			got <- amhelp.Add1Sync(ctx, api, "A")
+		}
+	}()
+	select {
+	case <-api.registered:
+	case <-time.After(time.Second):
+		return 3, "the helper did not register a WhenQueue waiter"
+	}
+	start := time.Now()
+	release()
+	r := <-got
+	if time.Since(start) > time.Second {
+		return 2, fmt.Sprintf("returned %v only when the context expired (A active: %v, tick %d)",
+			r, m.Is1("A"), m.Tick("A"))
+	}
+	if !r || m.Is1("A") == remove {
+		return wrong("returned %v, A active: %v", r, m.Is1("A"))
+	}
+	return ok()
+}
+
+// swTwoSyncCallers: caller 1 = Add1Sync(A); caller 2 = Add1Sync(D) runs
+// between caller 1's EvAdd and its WhenQueue, so the waiter of the LATER tick
+// is registered FIRST. D's handler parks the queue: once A's mutation is
+// done (queue parked in DState) caller 1 has to return true; caller 2
+// returns true after the gate opens.
+func swTwoSyncCallers() (int, string) {
+	m, _, release := swBlocked()
+	gate := make(chan struct{})
+	inD := make(chan struct{})
+	_, err := m.HandlersBindMaps(nil, map[string]am.HandlerFinal{
+		"DState": func(e *am.Event) {
+			close(inD)
+			<-gate
+		},
+	})
+	must(err)
+	ctx, cancel := context.WithTimeout(context.Background(), 1800*time.Millisecond)
+	defer cancel()
+	api1 := &swApi{Machine: m, registered: make(chan struct{})}
+	api2 := &swApi{Machine: m, registered: make(chan struct{})}
+	got1, got2 := make(chan bool, 1), make(chan bool, 1)
+	api1.afterEvAdd = func() {
+		go func() { got2 <- amhelp.Add1Sync(ctx, api2, "D") }()
+		select {
+		case <-api2.registered:
+		case <-time.After(time.Second):
+		}
+	}
+	go func() { got1 <- amhelp.Add1Sync(ctx, api1, "A") }()
+	select {
+	case <-api1.registered:
+	case <-time.After(1500 * time.Millisecond):
+		return 3, "caller 1 did not register a WhenQueue waiter"
+	}
+	release()
+	select {
+	case <-inD:
+	case <-time.After(time.Second):
+		return 3, "the queue did not reach DState"
+	}
+	if !m.Is1("A") {
+		return 3, "setup: A is not active while the queue is parked in DState"
+	}
+	select {
+	case r := <-got1:
+		if !r {
+			close(gate)
+			return wrong("caller 1: Add1Sync(A) returned false although A is active")
+		}
+	case <-time.After(800 * time.Millisecond):
+		close(gate)
+		select {
+		case r := <-got1:
+			return 2, fmt.Sprintf("caller 1: Add1Sync(A) was held until a later mutation finished (then returned %v)", r)
+		case <-time.After(2 * time.Second):
+			return 2, "caller 1: Add1Sync(A) never returned"
+		}
+	}
+	close(gate)
+	select {
+	case r := <-got2:
+		if !r || !m.Is1("D") {
+			return wrong("caller 2: Add1Sync(D) returned %v, D active: %v", r, m.Is1("D"))
+		}
+	case <-time.After(time.Second):
+		return 2, "caller 2: Add1Sync(D) did not return after its mutation"
+	}
+	return ok()
+}
+
 func swCopy[T any](get func() T, mutate func(T), same func(a, b T) bool) (int, string) {
 	before := get()
 	v := get()
@@ -895,6 +1028,12 @@ var c20SweepItems = []swItem{
 		am.NewTimeIndex(nil, nil)
 		return ok()
 	}},
+	{68, "helpers.Add1Sync/queued behind an earlier-registered WhenQueue waiter of a far-future tick", phNA,
+		func(env *swEnv) (int, string) { return swBehindFuture(false) }},
+	{69, "helpers.Remove1Sync/queued behind an earlier-registered WhenQueue waiter of a far-future tick", phNA,
+		func(env *swEnv) (int, string) { return swBehindFuture(true) }},
+	{70, "helpers.Add1Sync/two callers, the waiter of the later tick registered first", phNA,
+		func(env *swEnv) (int, string) { return swTwoSyncCallers() }},
 	{67, "Machine.WhenQuery/released-by-Dispose", []int{0}, func(env *swEnv) (int, string) {
 		ctx, cancel := context.WithCancel(context.Background())
 		defer cancel()
